@@ -167,6 +167,19 @@ def unauth_corpus(w, target):
         add('vendor-id-binary:%s' % lab, F.clear(s_i, s_r, exch, fl, 0, [(F.VENDOR, b'\xff\xfe\x80binary')]))
         add('id-ipv4-wrong-length:%s' % lab, F.clear(s_i, s_r, exch, fl, 0, [(F.IDi, b'\x01\0\0\0' + b'\x01\x02\x03')]))
         add('id-fqdn-not-utf8:%s' % lab, F.clear(s_i, s_r, exch, fl, 0, [(F.IDi, b'\x02\0\0\0' + b'\xff\xfe\xfd')]))
+        # substructures whose own length field is 0 / smaller than their header (inside a well-formed payload)
+        for tstype in (7, 8, 9, 0, 255):
+            add('ts-selector-len0-type%d:%s' % (tstype, lab), F.clear(s_i, s_r, exch, fl, 0, [(F.TSi, b'\x01\0\0\0' + struct.pack('>BBHHH', tstype, 6, 0, 0, 65535) + b'\0' * 8)]))
+            add('ts-selector-len4-type%d:%s' % (tstype, lab), F.clear(s_i, s_r, exch, fl, 0, [(F.TSr, b'\x02\0\0\0' + struct.pack('>BBH', tstype, 6, 4) * 2)]))
+        add('sa-proposal-len0:%s' % lab, F.clear(s_i, s_r, exch, fl, 0, [(F.SA, struct.pack('>BBH', 0, 0, 0) + b'\x01\x01\x00\x01' + b'\0' * 8)]))
+        add('sa-transform-len0:%s' % lab, F.clear(s_i, s_r, exch, fl, 0, [(F.SA, struct.pack('>BBH', 0, 0, 20) + b'\x01\x01\x00\x02' + struct.pack('>BBH', 3, 0, 0) + b'\x01\0\0\x0c' + struct.pack('>BBH', 0, 0, 0))]))
+        add('sa-transform-attr-odd:%s' % lab, F.clear(s_i, s_r, exch, fl, 0, [(F.SA, struct.pack('>BBH', 0, 0, 19) + b'\x01\x01\x00\x01' + struct.pack('>BBH', 0, 0, 11) + b'\x01\0\0\x0c\x80\x0e\x01')]))
+        add('notify-spi-size-lies:%s' % lab, F.clear(s_i, s_r, exch, fl, 0, [(F.NOTIFY, struct.pack('>BBH', 1, 200, 16393) + b'ab')]))
+        add('notify-invalid-ke-short:%s' % lab, F.clear(s_i, s_r, exch, fl, 0, [(F.NOTIFY, F.n_body(17, b'\x13'))]))
+        add('notify-invalid-ke-empty:%s' % lab, F.clear(s_i, s_r, exch, fl, 0, [(F.NOTIFY, F.n_body(17, b''))]))
+        add('notify-cookie-empty:%s' % lab, F.clear(s_i, s_r, exch, fl, 0, [(F.NOTIFY, F.n_body(16390, b''))]))
+        add('delete-spi-size-0-count-9:%s' % lab, F.clear(s_i, s_r, exch, fl, 0, [(F.DELETE, struct.pack('>BBH', 3, 0, 9))]))
+        add('auth-empty:%s' % lab, F.clear(s_i, s_r, exch, fl, 0, [(F.AUTH, b'')]))
         add('ts-bad-selector:%s' % lab, F.clear(s_i, s_r, exch, fl, 0, [(F.TSi, b'\x01\0\0\0' + b'\x07\x06\x00\x08\0\0\xff\xff')]))
         add('delete-65535-spis-x3:%s' % lab, F.clear(s_i, s_r, exch, fl, 0, [(F.DELETE, struct.pack('>BBH', 3, 4, 65535))] * 3))
         add('notify-only:%s' % lab, F.clear(s_i, s_r, exch, fl, 0, [(F.NOTIFY, F.n_body(16390, b'c' * 32))]))
@@ -223,6 +236,10 @@ def auth_corpus(w, target):
     add('auth:info-unknown-critical', 37, [(250, b'zz')])
     add('auth:info-inner-chain-truncated', 37, None, first=41, inner=struct.pack('>BBH', 0, 0, 200) + b'xx')
     add('auth:info-inner-len-0', 37, None, first=1, inner=struct.pack('>BBH', 1, 0, 0))
+    for tstype in (7, 9):
+        add('auth:info-ts-selector-len0-type%d' % tstype, 37, [(F.TSi, b'\x01\0\0\0' + struct.pack('>BBHHH', tstype, 6, 0, 0, 65535) + b'\0' * 8)])
+    add('auth:info-notify-invalid-ke-short', 37, [(F.NOTIFY, F.n_body(17, b'\x13'))])
+    add('auth:info-sa-proposal-len0', 37, [(F.SA, struct.pack('>BBH', 0, 0, 0) + b'\x01\x01\x00\x01' + b'\0' * 8)])
     add('auth:ccsa-empty', 36, [])
     add('auth:ccsa-sa-only', 36, [(F.SA, b'\0\0\0\x08\x01\x03\x04\x00')])
     add('auth:ccsa-ts-family-mix', 36, [(F.TSi, b'\x01\0\0\0' + struct.pack('>BBHHH4s4s', 8, 0, 16, 0, 65535, b'\1\1\1\1', b'\2\2\2\2')),
@@ -356,6 +373,81 @@ def work(case):
     return label, res, lines
 
 
+# ------------------------------------------------------------------ several peers: some die, the others must be served
+
+def multi_confs():
+    ips = {'A': S.IP_A, 'B': S.IP_B, 'C': S.IP_C, 'D': '192.168.0.4'}
+    confs = {'A': {}}
+    for i, p in enumerate('BCD'):
+        confs['A']['to_' + p] = S.conn(ips['A'], ips[p], "alice@openikev2", "%s@openikev2" % p.lower(), "testing", "secret" + p,
+                                      [S.entry(10 + i)], dpd=3600)
+        confs[p] = {'to_a': S.conn(ips[p], ips['A'], "%s@openikev2" % p.lower(), "alice@openikev2", "secret" + p, "testing",
+                                   [S.entry(20 + i)], dpd=3600)}
+    return confs, {k: [v] for k, v in ips.items()}
+
+
+def multi_case(case):
+    order, dead = case          # order: permutation of 'BCD' (order of the ACQUIREs at A); dead: the peers that never answer
+    from harness.world import World
+    confs, addrs = multi_confs()
+    w = World(confs, addrs)
+    w.sent_log = []
+    for p in dead:
+        w.step(('crash', p))
+    conn_index = {p: i for i, p in enumerate('BCD')}
+    for p in order:
+        w.step(('acquire', 'A', conn_index[p], 0))
+    probs = []
+    for k in range(45):
+        for d in list(w.net):
+            if w.find(d.id):
+                w.step(('deliver', d.id))
+        guard = 0
+        while w.net and guard < 40:
+            guard += 1
+            w.step(('deliver', w.net[0].id))
+        w.step(('tick', 1.0))
+        if not w.endpoints['A'].alive:
+            break
+    a = w.endpoints['A']
+    if not a.alive:
+        return [('loop-exit:%s' % a.dead_reason[0], 'A left main_loop while some peers were timing out: %s' % a.dead_reason[1][:200])]
+    healthy = [p for p in 'BCD' if p not in dead]
+    for p in healthy:
+        e = w.endpoints[p]
+        pa = {x for x in P.established_pairs(a) if x in P.established_pairs(e)}
+        if not pa:
+            probs.append(('healthy-peer-lost', 'after the dead peers %s timed out, A and the healthy peer %s no longer share an '
+                          'established IKE_SA (A holds %s)' % (dead, p, [(s.state.name, str(s.peer_addr)) for s in a.controller.ike_sas])))
+            continue
+        # and it still works: a DPD exchange from the healthy peer is answered
+        i = next(i for i, s in enumerate(e.controller.ike_sas) if s.state == State.ESTABLISHED)
+        w.step(('due', p, i, 'dpd'))
+        guard = 0
+        while w.net and guard < 10:
+            guard += 1
+            w.step(('deliver', w.net[0].id))
+        if e.controller.ike_sas[i].state != State.ESTABLISHED:
+            probs.append(('healthy-peer-not-served', 'DPD from the healthy peer %s is not answered any more' % p))
+    for s in a.controller.ike_sas:
+        if str(s.peer_addr) in [str(w.endpoints[p].addrs[0]) for p in dead]:
+            probs.append(('dead-peer-ike-sa-kept', 'IKE_SA to the dead peer still held 45 s later (%s)' % s.state.name))
+    o, m = P.sad_diff(a)
+    if o or m:
+        probs.append(('sad-mismatch', 'A: SAD differs from tracked CHILD_SAs after the time-outs'))
+    want = 2 * len(healthy)
+    if len(a.kernel.sad) != want:
+        probs.append(('sad-size', 'A holds %d kernel SAs, expected %d (one CHILD_SA per healthy peer)' % (len(a.kernel.sad), want)))
+    return probs
+
+
+def multi_cases():
+    import itertools
+    for order in itertools.permutations('BCD'):
+        for dead in (('B', 'C'), ('B', 'D'), ('C', 'D'), ('B',), ('B', 'C', 'D')):
+            yield (''.join(order), dead)
+
+
 POSITIONS = None
 NEXT_EVENT = None
 
@@ -400,6 +492,12 @@ def cases():
 
 def replay(path):
     doc = jdec(json.load(open(path)))
+    if 'multi' in doc:
+        res = multi_case((doc['multi'][0], tuple(doc['multi'][1])))
+        for r in res:
+            print('reproduced:', r)
+        print('REPLAY %s' % ('reproduces a violation' if res else 'does not reproduce'))
+        sys.exit(1 if res else 0)
     prepare()
     case = doc['case']
     case = (case[0], case[1], case[2], tuple(case[3]) if isinstance(case[3], (list, tuple)) else case[3])
@@ -427,7 +525,14 @@ def main():
         for sig, msg in res:
             ck.violation('%s:%s:%s' % (sig, case[1], label), '%s [hostile item %s at %s before step %d of the session]' % (
                 msg, label, case[2], case[0]), dict(case=case))
-    ck.coverage.update(evaluations=len(cs), distinct_nontrivial=len(labels),
+    mc = list(multi_cases())
+    for case, probs in zip(mc, ck.pmap(multi_case, mc)):
+        labels.add('multi-peer:dead=%s' % ''.join(case[1]))
+        outcomes[('multi-peer', 'ok' if not probs else probs[0][0])] += 1
+        for sig, msg in probs:
+            ck.violation('multi-peer:%s:dead=%d' % (sig, len(case[1])), '%s [ACQUIRE order %s, dead peers %s]' % (msg, case[0], case[1]),
+                         dict(multi=case))
+    ck.coverage.update(evaluations=len(cs) + len(mc), distinct_nontrivial=len(labels),
                        rule='one evaluation = (position in the legitimate session, endpoint, hostile item or failing call '
                             'index): the item is injected through main_loop on a copy of the world, lines executed are '
                             'counted, then the session is completed and compared; distinct_nontrivial = distinct hostile '
